@@ -311,30 +311,75 @@ def gen_setsize(rng):
     return Case(line, d, f"setsize-{d['w'][0]}-{d['h'][0]}")
 
 
+def rrender(rng, file_src):
+    """a render attempt: [rw, check, scroll, fail, via] — via = the entry point used on the real image"""
+    k = rng.random()
+    if file_src and k < 0.5:
+        via = rng.choice(["str", "fmt", "draw", "raw"])
+        if via in ("str", "fmt"):
+            return ["rw", 0, 0, "source", via]
+        if via == "draw":
+            return ["rw", 1, rng.randint(0, 1), "source", via]
+        return ["rw", rng.randint(0, 1), rng.randint(0, 1), "source", via]
+    if k < 0.7:
+        return ["rw", rng.randint(0, 1), rng.randint(0, 1), "renderer", "raw"]
+    return ["rw", 1, rng.randint(0, 1), "none", "raw"]
+
+
+def rhist_op(rng, d, file_src):
+    k = rng.random()
+    if k < 0.12:
+        return ["ss", rsarg(rng), rsarg(rng), rframe(rng, d)]
+    if k < 0.24:
+        return ["sd", rng.choice(SIZE_NAMES)]
+    if k < 0.3:
+        return ["st", rng.choice([0, -3, rng.randint(1, 300)]), rng.randint(1, 100)]
+    if k < 0.35:
+        return ["sw", rsarg(rng)]
+    if k < 0.4:
+        return ["sh", rsarg(rng)]
+    if k < 0.56:
+        return ["rs", rterm(rng), rterm(rng)]
+    if k < 0.63:
+        return ["sc", rng.choice([None, [rng.randint(1, 24), rng.randint(1, 48)]])]
+    if k < 0.74:
+        return ["sr", rng.choice([["v", f2h(rratio(rng))], ["v", f2h(0.0)], ["fixed"], ["dynamic"]])]
+    if k < 0.84:
+        return ["rn"]
+    return rrender(rng, file_src)
+
+
 def gen_hist(rng):
     d = renv(rng)
     d["ow"], d["oh"] = rdim(rng, 10 ** 5), rdim(rng, 10 ** 5)
+    d["src"] = "file" if rng.random() < 0.6 else "pil"
+    file_src = d["src"] == "file"
     ops = []
-    for _ in range(rng.randint(2, 10)):
+    shape = "free"
+    if rng.random() < 0.35:
+        # the scenario the last clause of the property is about: a size setting, a render attempt
+        # that fails (or is refused), then the terminal / cell ratio changes, then reads and renders
+        shape = "fail-then-change"
         k = rng.random()
-        if k < 0.12:
-            ops.append(["ss", rsarg(rng), rsarg(rng), rframe(rng, d)])
-        elif k < 0.24:
+        if k < 0.6:
             ops.append(["sd", rng.choice(SIZE_NAMES)])
-        elif k < 0.3:
-            ops.append(["st", rng.choice([0, -3, rng.randint(1, 300)]), rng.randint(1, 100)])
-        elif k < 0.36:
-            ops.append(["sw", rsarg(rng)])
-        elif k < 0.42:
-            ops.append(["sh", rsarg(rng)])
-        elif k < 0.6:
-            ops.append(["rs", rterm(rng), rterm(rng)])
-        elif k < 0.68:
-            ops.append(["sc", rng.choice([None, [rng.randint(1, 24), rng.randint(1, 48)]])])
         elif k < 0.8:
-            ops.append(["sr", rng.choice([["v", f2h(rratio(rng))], ["v", f2h(0.0)], ["fixed"], ["dynamic"]])])
-        else:
-            ops.append(["rn"])
+            ops.append(["st", rng.randint(1, 300), rng.randint(1, 100)])
+        elif k < 0.9:
+            ops.append(["ss", ["sz", rng.choice(SIZE_NAMES)], ["none"], rframe(rng, d)])
+        if rng.random() < 0.5:
+            ops.append(["rs", rterm(rng), rterm(rng)])
+        for _ in range(rng.randint(1, 2)):
+            ops.append(rrender(rng, file_src))
+        for _ in range(rng.randint(1, 3)):
+            ops.append(rng.choice([["rs", rterm(rng), rterm(rng)], ["sr", ["v", f2h(rratio(rng))]],
+                                   ["sc", rng.choice([None, [rng.randint(1, 24), rng.randint(1, 48)]])]]))
+        ops.append(rng.choice([["rn"], rrender(rng, file_src), ["rs", rterm(rng), rterm(rng)]]))
+        for _ in range(rng.randint(0, 3)):
+            ops.append(rhist_op(rng, d, file_src))
+    else:
+        for _ in range(rng.randint(2, 10)):
+            ops.append(rhist_op(rng, d, file_src))
     d["ops"] = ops
     toks = []
     for o in ops:
@@ -346,11 +391,15 @@ def gen_hist(rng):
             toks.append(f"sc {opt_cell(o[1])}")
         elif o[0] == "sr":
             toks.append("sr " + " ".join(o[1]))
+        elif o[0] == "rw":
+            toks.append(f"rw {o[1]} {o[2]} {o[3]}")  # the entry point (o[4]) is the harness's business
         else:
             toks.append(" ".join(str(x) for x in o))
     line = f"hist {d['fam']} {env_line(d)} {d['ow']} {d['oh']} {len(ops)} " + " ".join(toks)
     kinds = sorted({o[0] for o in ops})
-    return Case(line, d, "hist-" + d["fam"], "rn" in kinds or "rs" in kinds)
+    fails = sorted({o[3] for o in ops if o[0] == "rw"})
+    label = f"hist-{d['fam']}-{d['src']}-{shape}" + ("-" + "+".join(fails) if fails else "")
+    return Case(line, d, label, bool({"rn", "rs", "rw"} & set(kinds)))
 
 
 def rfloat(rng):
@@ -725,9 +774,12 @@ class C04(Property):
         return sweep(rng, 4000 if tier == "quick" else 40000, small=True)
 
     def extra_checks(self, rng, tier, ev):
-        if tier != "thorough":
-            return []
-        return sweep(rng, 60000, small=True)
+        try:
+            if tier != "thorough":
+                return []
+            return sweep(rng, 60000, small=True)
+        finally:
+            remove_tmp_dir()  # the framework leaves with os._exit: this is the last hook of a run
 
 
 def fmt_stored(s):
@@ -742,11 +794,104 @@ def fmt_pair(f):
     return f"ok {r[0]} {r[1]}"
 
 
+_PNG = None
+_TMP = None
+_COUNTER = __import__("itertools").count()
+
+
+def tmp_dir():
+    """the harness-owned directory for file-sourced images: created inside the run on first use,
+    removed by `remove_tmp_dir` (end of the run; also at interpreter exit)"""
+    global _TMP
+    if _TMP is None or not os.path.isdir(_TMP):
+        import atexit
+        import tempfile
+        _TMP = tempfile.mkdtemp(prefix="verif-c04-")
+        atexit.register(remove_tmp_dir)
+    return _TMP
+
+
+def remove_tmp_dir():
+    global _TMP
+    if _TMP is not None:
+        import shutil
+        shutil.rmtree(_TMP, ignore_errors=True)
+        _TMP = None
+
+
+def png_bytes():
+    global _PNG
+    if _PNG is None:
+        import io
+        b = io.BytesIO()
+        Image.new("RGB", (3, 2), (10, 200, 30)).save(b, "PNG")
+        _PNG = b.getvalue()
+    return _PNG
+
+
+class _RendererFailed(RuntimeError):
+    pass
+
+
+def _raising_renderer(im):
+    raise RuntimeError("renderer failed")
+
+
+def attempt_render(img, o, path):
+    """one render attempt `[rw, check, scroll, fail, via]` on the real image; returns the obs string"""
+    _, check, scroll, fail, via = o
+    moved = False
+    if fail == "source":
+        os.rename(path, path + ".away")  # the source file is unreadable for a moment
+        moved = True
+    try:
+        if via == "str":
+            str(img)
+            return "err render-did-not-fail"
+        if via == "fmt":
+            format(img, "")
+            return "err render-did-not-fail"
+        if via == "draw":
+            out, sys.stdout = sys.stdout, open(os.devnull, "w")
+            try:
+                img.draw(scroll=bool(scroll), check_size=bool(check))
+            finally:
+                sys.stdout.close()
+                sys.stdout = out
+            return "err render-did-not-fail"
+        f = _raising_renderer if fail == "renderer" else (lambda im: img._size)
+        seen = img._renderer(f, check_size=bool(check), scroll=bool(scroll))
+        return f"rendered {seen[0]} {seen[1]}" if isinstance(seen, tuple) else f"err render-saw {seen!r}"
+    finally:
+        if moved:
+            os.rename(path + ".away", path)
+
+
 def run_history(d, watch=None):
     """Run the history on a real image; one `obs | size | rendered_size` item per op."""
+    if d.get("src") == "file":
+        path = os.path.join(tmp_dir(), f"img{next(_COUNTER)}.png")
+        with open(path, "wb") as f:
+            f.write(png_bytes())
+        try:
+            apply_env(d)
+            img = CLS[d["fam"]].from_file(path)
+            img._original_size = (d["ow"], d["oh"])
+            try:
+                return _run_history(d, img, path, watch)
+            finally:
+                img.close()
+        finally:
+            for p in (path, path + ".away"):
+                if os.path.exists(p):
+                    os.unlink(p)
+    apply_env(d)
+    return _run_history(d, new_image(d["fam"], d["ow"], d["oh"]), None, watch)
+
+
+def _run_history(d, img, path, watch):
     apply_env(d)
     term_image.AutoCellRatio.is_supported = None
-    img = new_image(d["fam"], d["ow"], d["oh"])
     out = []
     for o in d["ops"]:
         obs = "done"
@@ -773,6 +918,8 @@ def run_history(d, watch=None):
             elif o[0] == "rn":
                 seen = img._renderer(lambda im: img._size)
                 obs = f"rendered {seen[0]} {seen[1]}" if isinstance(seen, tuple) else f"err render-saw {seen!r}"
+            elif o[0] == "rw":
+                obs = attempt_render(img, o, path)
         except Exception as e:
             obs = exc_name(e)
         item = (obs, img.size, fmt_pair(lambda: img.rendered_size))
@@ -805,17 +952,20 @@ def check_history(d):
             held = size
         else:
             if size != held or type(size) is not type(held):
-                return Failure(f"stable/{key}", f"op {i} ({o[0]}): the size setting changed from {held!r} to {size!r}")
+                what = "a render attempt that " + {"source": "failed in _get_image() (source unreadable)", "renderer": "failed in the renderer",
+                                                   "none": "was size-checked"}[o[3]] if o[0] == "rw" else o[0]
+                return Failure(f"stable/{key}", f"op {i} ({what}): the size setting changed from "
+                               f"{getattr(held, 'name', held)!r} to {getattr(size, 'name', size)!r}")
         if isinstance(held, tuple):
             if rendered != f"ok {held[0]} {held[1]}":
                 return Failure(f"stable/{key}", f"op {i} ({o[0]}): fixed size {held} but rendered_size {rendered}")
-            if o[0] == "rn" and obs != f"rendered {held[0]} {held[1]}":
+            if (o[0] == "rn" or (o[0] == "rw" and obs.startswith("rendered"))) and obs != f"rendered {held[0]} {held[1]}":
                 return Failure(f"stable/{key}", f"op {i}: fixed size {held} but the renderer ran with {obs}")
         else:
             if fresh is not None and fresh.startswith("ok") and rendered != fresh:
                 return Failure(f"follows/{key}", f"op {i} ({o[0]}): dynamic {held.name}: rendered_size is {rendered} but a fresh "
                                f"computation for the current terminal and cell ratio gives {fresh}")
-            if o[0] == "rn" and not obs.startswith("err") and "rendered " + rendered[3:] != obs:
+            if o[0] in ("rn", "rw") and obs.startswith("rendered") and "rendered " + rendered[3:] != obs:
                 return Failure(f"follows/{key}", f"op {i}: dynamic {held.name}: renderer ran with {obs}, rendered_size is {rendered}")
     # the dynamic values themselves are judged by check_sizing at the end state
     return None
